@@ -373,3 +373,50 @@ func VfC16_SharedBacking() {
 	// the same through an enclosing pointer (which compares printed strings)
 	vfAssert("C16.shared.pointer-to-struct-lengths-differ", vfNot(NewPointer(short).Equal(NewPointer(long))))
 }
+
+// VfC16_SharedObjects: type graphs are DAGs in practice - one type object
+// (here a pointer, a vector or an array type, and the integer type below it)
+// occurs at two positions of the left operand, while the right operand is
+// built from fresh objects and differs, or not, at the second position only
+// (symbolic widths decide).  Equal must agree with the reference identity in
+// both directions, for function, struct, array-of-struct and nested shapes.
+//
+//vf:unwind 200
+func VfC16_SharedObjects() {
+	w1, w2 := uint64(vfByte("w1")), uint64(vfByte("w2"))
+	vfAssume(vfAnd(vfAnd(w1 >= 1, w1 <= 64), vfAnd(w2 >= 1, w2 <= 64)))
+	mk := func(kind int, w uint64) Type {
+		it := NewInt(w)
+		switch kind {
+		case 0:
+			return NewPointer(it)
+		case 1:
+			return NewVector(4, it)
+		case 2:
+			return NewArray(3, it)
+		default:
+			return NewPointer(NewPointer(it))
+		}
+	}
+	kind := vfChoice("shared-kind", 4)
+	s := mk(kind, w1) // the shared object
+	a, b := mk(kind, w1), mk(kind, w2)
+	var l, r Type
+	switch vfChoice("shape", 5) {
+	case 0:
+		l, r = NewFunc(Void, s, s), NewFunc(Void, a, b)
+	case 1:
+		l, r = NewStruct(s, s), NewStruct(a, b)
+	case 2:
+		l, r = NewFunc(s, I8, s), NewFunc(a, I8, b)
+	case 3:
+		l, r = NewStruct(NewArray(2, s), NewPointer(s)), NewStruct(NewArray(2, a), NewPointer(b))
+	default:
+		l, r = NewPointer(NewFunc(Void, s, NewStruct(I1, s))), NewPointer(NewFunc(Void, a, NewStruct(I1, b)))
+	}
+	vfReach("C16.shared-objects")
+	want := hRef(l, r)
+	vfAssert("C16.shared-objects.left-shared", l.Equal(r) == want)
+	vfAssert("C16.shared-objects.right-shared", r.Equal(l) == want)
+	vfAssert("C16.shared-objects.expected", want == (w1 == w2))
+}
